@@ -128,6 +128,9 @@ impl Block for SymbolSync {
         let olen = o.len();
         let oslice = o.slice();
         for sample in input.iter() {
+            if opos == olen {
+                break;
+            }
             n += 1;
             if self.stream_pos >= self.next_sym_middle {
                 // TODO: use more than center sample.
@@ -137,9 +140,6 @@ impl Block for SymbolSync {
                 }
                 opos += 1;
                 self.next_sym_middle += self.clock;
-                if opos == olen {
-                    break;
-                }
             }
             let sign = *sample > 0.0;
             if sign != self.last_sign {
